@@ -38,6 +38,9 @@ def statement(ctx, inputs, results):
             return
         for pos, idx in enumerate(perm):
             ctx.case(("c06", inputs[idx], name), nontrivial=True)
+            if pipeline.hit_by_real_timeout(tr["out"][pos]) or "terminated by timeout" in ref[idx]:
+                ctx.count("row-hit-by-real-timeout(not compared)")
+                continue
             if key_row(tr["out"][pos]) != ref[idx]:
                 ctx.violation("row-depends-on-batch-context", inputs[idx],
                               "layout '%s' n_jobs=%s: %s vs %s" % (name, tr["n_jobs"], key_row(tr["out"][pos]), ref[idx]),
@@ -52,7 +55,7 @@ def statement(ctx, inputs, results):
 def pick(ctx, n):
     mix = pipeline.workload_mix(ctx)
     rng = ctx.rng
-    idx = list(range(len(mix["inputs"])))
+    idx = [i for i in range(len(mix["inputs"])) if pipeline.is_small(mix["inputs"][i], 40)]
     rng.shuffle(idx)
     return [mix["inputs"][i] for i in idx[:n]]
 
@@ -67,11 +70,13 @@ def explore(ctx, n, nlayouts, compare=True):
         ctx.count("layout:n_jobs=%s" % nj)
         results.append((name, perm, tr))
     # one by one
-    singles = [pipeline.traced_run([x], n_jobs=1) for x in inputs[: max(4, n // 4)]]
+    singles = [pipeline.traced_run([x], n_jobs=1) for x in inputs[: max(4, n // 5)]]
     base = results[0][2]
     if base["out"] is not None:
         for i, s in enumerate(singles):
             ctx.case(("c06-single", inputs[i]), nontrivial=True)
+            if s["out"] is not None and (pipeline.hit_by_real_timeout(s["out"][0]) or pipeline.hit_by_real_timeout(base["out"][i])):
+                continue
             if s["out"] is None or key_row(s["out"][0]) != key_row(base["out"][i]):
                 ctx.violation("row-depends-on-batch-context", inputs[i],
                               "alone: %s vs in batch: %s" % (s["out"], key_row(base["out"][i])), "synrbl/balancing.py id/index plumbing")
@@ -98,6 +103,6 @@ def run(ctx):
     )
     if drv:
         quick = ctx.tier == "quick"
-        inputs, results = explore(ctx, 28 if quick else 400, 3 if quick else 12)
+        inputs, results = explore(ctx, 20 if quick else 400, 2 if quick else 12)
         ctx.sample({"layouts": [r[0] for r in results], "reactions": len(inputs)})
     return ctx.finish(search)
